@@ -40,7 +40,7 @@ QueryMethods == {"dio_b_read", "var_read", "query_voltage", "query_current", "mo
 Program(c) ==
   LET m == c.m a == c.a IN
   CASE m = "command"  -> <<Stp("cmd", c.s, "", <<>>, "")>>
-    [] m = "query"    -> <<Stp("qry", c.s, "QX", <<>>, "")>>
+    [] m = "query"    -> <<Stp("qry", c.s, IF c.s = "QT" THEN "QT" ELSE "QX", <<>>, "")>>       \* query("QT"): the nickname, possibly empty
     [] m = "query_statusbyte" -> <<Stp("poll", "QG", "QG", <<>>, "")>>
     [] m \in {"reboot", "bootload"} -> Plain("raw", Lines(m, a))
     [] m = "write_nickname" -> <<Stp("cmd", "ST," \o c.s, "ST", <<>>, c.s)>>
